@@ -271,21 +271,28 @@ func (ex *Exec) mergeValues(vals []Value, guards []string, hint string) Value {
 		return vals[0]
 	}
 	var terms []Term
-	allFn := true
+	allFn, anyFn := true, false
 	for _, v := range vals {
-		switch v.(type) {
+		switch x := v.(type) {
 		case Closure, FnRef, MergedFn:
+			anyFn = true
+		case Term:
+			// the nil function value (an error return next to a closure return) is an alternative nobody can call
+			if _, isSig := x.T.Underlying().(*types.Signature); !isSig {
+				allFn = false
+			}
 		default:
 			allFn = false
 		}
 	}
-	if allFn {
+	if allFn && anyFn {
 		// different function values meet at a join: remember the alternatives; a call havocs what any may write
 		var mf MergedFn
 		for _, v := range vals {
 			switch f := v.(type) {
 			case MergedFn:
 				mf.Alts = append(mf.Alts, f.Alts...)
+			case Term:
 			default:
 				mf.Alts = append(mf.Alts, v)
 			}
